@@ -36,13 +36,48 @@ pub fn gen(rng: &mut Rng, idx: usize, n: usize, thorough: bool) -> String {
         0..=3 => gen_d(rng, idx, n),
         4..=7 => gen_t(rng, idx, n),
         8..=11 => gen_s(rng, idx, n),
-        12..=15 => format!(
+        12..=13 => format!(
             "B {}",
             bddprog::gen_prog(rng, idx, n, &GenOpts { max_vars: 6, max_ops: if thorough { 30 } else { 20 }, new_vars: true, small_tables: false })
         ),
+        14..=15 => gen_b(rng, idx, n, thorough),
         16..=18 => gen_x(rng, idx, n, thorough),
         _ => gen_v(rng, idx, n),
     }
+}
+
+/// growth-oriented BDD programs (same case language as bddprog): all literals first, then
+/// and/or/xor/iff/ite over recent results, so that diagrams with shared nodes and complemented
+/// edges are the rule
+fn gen_b(rng: &mut Rng, idx: usize, n: usize, thorough: bool) -> String {
+    let frac = (idx * 100) / n.max(1);
+    let nvars = (2 + (frac * 5) / 100).min(7);
+    let perm = rng.perm(nvars);
+    let mut s = format!("B {nvars}");
+    for p in &perm {
+        s.push_str(&format!(" {p}"));
+    }
+    s.push_str(if rng.coin() { " a 0" } else { " l3 0" });
+    for v in 0..nvars {
+        s.push_str(&format!(" v {v} {}", rng.coin() as u8));
+    }
+    let mut pool = nvars;
+    let nops = 2 + (frac * if thorough { 24 } else { 14 }) / 100 + rng.range(0, 3);
+    for _ in 0..nops {
+        let pick = |rng: &mut Rng, pool: usize| -> usize { if rng.chance(2, 3) { pool - 1 - rng.range(0, 3.min(pool - 1)) } else { rng.below(pool as u64) as usize } };
+        let (i, j, k) = (pick(rng, pool), rng.below(pool as u64) as usize, pick(rng, pool));
+        match rng.below(100) {
+            0..=24 => s.push_str(&format!(" x {i} {j}")),
+            25..=39 => s.push_str(&format!(" e {i} {j}")),
+            40..=59 => s.push_str(&format!(" a {i} {j}")),
+            60..=79 => s.push_str(&format!(" o {i} {j}")),
+            80..=91 => s.push_str(&format!(" i {i} {j} {k}")),
+            92..=96 => s.push_str(&format!(" n {i}")),
+            _ => s.push_str(if rng.coin() { " t" } else { " f" }),
+        }
+        pool += 1;
+    }
+    s
 }
 
 fn gen_d(rng: &mut Rng, idx: usize, n: usize) -> String {
@@ -108,8 +143,8 @@ fn gen_t(rng: &mut Rng, idx: usize, n: usize) -> String {
 
 const NAMES: &[&str] = &["a", "B", "a10", "a9", "Z", "aa", "A", "b", "_x", "x-1", "10", "9", "a.b", "Ab", "aB", "z", "a1", "a09", "X", "Y"];
 
-fn gen_sx(rng: &mut Rng, depth: usize, names: &[&str], consts: bool, out: &mut String) {
-    let leaf = depth == 0 || rng.chance(1, 4);
+fn gen_sx(rng: &mut Rng, depth: usize, top: bool, names: &[&str], consts: bool, out: &mut String) {
+    let leaf = depth == 0 || (!top && rng.chance(1, 4));
     if leaf {
         if consts && rng.chance(1, 3) {
             out.push_str(if rng.coin() { " True" } else { " False" });
@@ -119,30 +154,30 @@ fn gen_sx(rng: &mut Rng, depth: usize, names: &[&str], consts: bool, out: &mut S
         return;
     }
     match rng.below(12) {
-        0..=2 => { out.push_str(" Not"); gen_sx(rng, depth - 1, names, consts, out) }
-        3..=4 => { out.push_str(" Or"); gen_sx(rng, depth - 1, names, consts, out); gen_sx(rng, depth - 1, names, consts, out) }
-        5..=6 => { out.push_str(" And"); gen_sx(rng, depth - 1, names, consts, out); gen_sx(rng, depth - 1, names, consts, out) }
-        7..=8 => { out.push_str(" Iff"); gen_sx(rng, depth - 1, names, consts, out); gen_sx(rng, depth - 1, names, consts, out) }
-        9 => { out.push_str(" Xor"); gen_sx(rng, depth - 1, names, consts, out); gen_sx(rng, depth - 1, names, consts, out) }
+        0..=2 => { out.push_str(" Not"); gen_sx(rng, depth - 1, false, names, consts, out) }
+        3..=4 => { out.push_str(" Or"); gen_sx(rng, depth - 1, false, names, consts, out); gen_sx(rng, depth - 1, false, names, consts, out) }
+        5..=6 => { out.push_str(" And"); gen_sx(rng, depth - 1, false, names, consts, out); gen_sx(rng, depth - 1, false, names, consts, out) }
+        7..=8 => { out.push_str(" Iff"); gen_sx(rng, depth - 1, false, names, consts, out); gen_sx(rng, depth - 1, false, names, consts, out) }
+        9 => { out.push_str(" Xor"); gen_sx(rng, depth - 1, false, names, consts, out); gen_sx(rng, depth - 1, false, names, consts, out) }
         _ => {
             out.push_str(" Ite");
-            gen_sx(rng, depth - 1, names, consts, out);
-            gen_sx(rng, depth - 1, names, consts, out);
-            gen_sx(rng, depth - 1, names, consts, out)
+            gen_sx(rng, depth - 1, false, names, consts, out);
+            gen_sx(rng, depth - 1, false, names, consts, out);
+            gen_sx(rng, depth - 1, false, names, consts, out)
         }
     }
 }
 
 fn gen_s(rng: &mut Rng, idx: usize, n: usize) -> String {
     let frac = (idx * 100) / n.max(1);
-    let k = rng.range(1, 1 + (frac * 5) / 100).min(6);
+    let k = if rng.chance(1, 10) { 1 } else { rng.range(2, 2 + (frac * 4) / 100).min(6) };
     let mut pool: Vec<&str> = NAMES.to_vec();
     rng.shuffle(&mut pool);
     pool.truncate(k);
     let consts = rng.chance(1, 12);
-    let depth = 1 + (frac * 4) / 100 + rng.range(0, 1);
-    let mut s = format!("S {}", rng.range(0, 3));
-    gen_sx(rng, depth, &pool, consts, &mut s);
+    let depth = if rng.chance(1, 15) { 0 } else { 1 + (frac * 4) / 100 + rng.range(0, 1) };
+    let mut s = format!("S {}", if rng.chance(1, 10) { 3 } else { rng.range(0, 2) });
+    gen_sx(rng, depth, true, &pool, consts, &mut s);
     s
 }
 
@@ -231,8 +266,9 @@ fn gen_x(rng: &mut Rng, idx: usize, n: usize, thorough: bool) -> String {
     let mut s = format!("X {} {} ;", compress as u8, vt_text(&vt));
     let mut len = 0usize;
     let lit = |rng: &mut Rng| format!(" v {} {}", rng.pick(&labels), rng.coin() as u8);
-    for _ in 0..rng.range(1, nleaves + 1) {
-        s.push_str(&lit(rng));
+    let seed = if rng.chance(1, 8) { 1 } else { nleaves.max(2) };
+    for k in 0..seed {
+        s.push_str(&format!(" v {} {}", labels[k % nleaves], rng.coin() as u8));
         len += 1;
     }
     while len < nops {
